@@ -82,6 +82,12 @@ def _ops():
     add("joinpath('c','d')", lambda u: u.joinpath("c", "d"))
     add("joinpath('..','x')", lambda u: u.joinpath("..", "x"))
     add("joinpath('%41', encoded=True)", lambda u: u.joinpath("%41", encoded=True))
+    # calls with no arguments at all (the degenerate arity of every *args method)
+    add("joinpath()", lambda u: u.joinpath())
+    add("with_query()", lambda u: u.with_query())
+    add("extend_query()", lambda u: u.extend_query())
+    add("update_query()", lambda u: u.update_query())
+    add("without_query_params()", lambda u: u.without_query_params())
     add("parent", lambda u: u.parent)
     add("origin()", lambda u: u.origin())
     add("relative()", lambda u: u.relative())
